@@ -106,7 +106,8 @@ impl StaticSound {
 
 	#[must_use]
 	fn is_playing_backwards(&self) -> bool {
-		let mut is_playing_backwards = self.playback_rate.value().0.is_sign_negative();
+		// a rate of -0.0 is not a negative rate: it plays (or rather stands still) forwards, like 0.0
+		let mut is_playing_backwards = self.playback_rate.value().0 < 0.0;
 		if self.reverse {
 			is_playing_backwards = !is_playing_backwards
 		}
